@@ -148,8 +148,19 @@ class SerialShim:
         self.serial = serial_asyncio.serial
 
 
+WAITS = []          # the wait strategies the client handed to tenacity (most recent last)
+
+
 def install(R, open_connection):
     R.ioclient.asyncio = AsyncioShim(open_connection)
+    real_retrying = getattr(R.ioclient, "_vf_real_AsyncRetrying", None) or R.ioclient.AsyncRetrying
+    R.ioclient._vf_real_AsyncRetrying = real_retrying
+
+    def retrying(*a, **k):
+        if "wait" in k:
+            WAITS.append(k["wait"])
+        return real_retrying(*a, **k)
+    R.ioclient.AsyncRetrying = retrying
 
     async def open_serial_connection(**kw):
         return await open_connection("serial", 0)
